@@ -951,32 +951,67 @@ func sortedTS(m map[string]*KEntry) []string {
 // function reports (Monetary -> "monetary").
 func (c *Ctx) ValueTypeNames() map[string]string {
 	out := map[string]string{}
+	for reported, vt := range c.leafExpectations() {
+		out[vt] = reported
+	}
+	return out
+}
+
+// leafExpectations: the functions of the interpreter that accept exactly one kind of Value
+// (one type assertion - the arm of a one-case type switch or a comma-ok assertion - on their
+// Value parameter) and otherwise build a TypeError with a constant Expected name.
+// Returns reported type name -> accepted Value type.
+func (c *Ctx) leafExpectations() map[string]string {
+	out := map[string]string{}
 	valueT := c.P.Named("internal/interpreter", "Value")
 	sum := c.M.SumOf(valueT)
-	in := c.P.Pkg("internal/interpreter")
-	if sum == nil || in == nil {
+	if sum == nil {
 		return out
 	}
-	for _, sw := range c.Switches() {
-		if sw.Sum != sum || relOf(sw) != "internal/interpreter" || len(sw.Clauses) != 1 || len(sw.Clauses[0].Types) != 1 || sw.Default == nil {
+	impls := map[string]bool{}
+	for _, n := range sum.Impls {
+		impls[n.Obj().Name()] = true
+	}
+	for _, fn := range c.P.ModuleFunctions() {
+		if relOfFn(fn) != "internal/interpreter" || len(fn.Params) == 0 {
 			continue
 		}
-		nt, ok := types.Unalias(sw.Clauses[0].Types[0]).(*types.Named)
-		if !ok {
-			continue
-		}
-		ast.Inspect(sw.Default.CC, func(n ast.Node) bool {
-			kv, ok := n.(*ast.KeyValueExpr)
-			if !ok {
-				return true
+		var vp *ssa.Parameter
+		for _, p := range fn.Params {
+			if types.Identical(p.Type(), valueT) {
+				vp = p
 			}
-			if id, ok := kv.Key.(*ast.Ident); ok && id.Name == "Expected" {
-				if tv := in.TypesInfo.Types[kv.Value]; tv.Value != nil && tv.Value.Kind() == constant.String {
-					out[nt.Obj().Name()] = constant.StringVal(tv.Value)
+		}
+		if vp == nil {
+			continue
+		}
+		var accepted []string
+		var reported []string
+		for _, b := range fn.Blocks {
+			for _, in := range b.Instrs {
+				switch x := in.(type) {
+				case *ssa.TypeAssert:
+					if resolveLocal(x.X) != ssa.Value(vp) {
+						continue
+					}
+					if nt, ok := types.Unalias(x.AssertedType).(*types.Named); ok && impls[nt.Obj().Name()] {
+						accepted = append(accepted, nt.Obj().Name())
+					}
+				case *ssa.Store:
+					if fld := core.FieldOf(x.Addr); fld != nil && fld.Name() == "Expected" {
+						if fa, ok := x.Addr.(*ssa.FieldAddr); ok && ownerName(fa) == "TypeError" {
+							if sv, ok := core.ConstString(x.Val); ok {
+								reported = append(reported, sv)
+							}
+						}
+					}
 				}
 			}
-			return true
-		})
+		}
+		if len(accepted) == 1 && len(reported) == 1 {
+			out[reported[0]] = accepted[0]
+			c.Touch(fn)
+		}
 	}
 	return out
 }
